@@ -203,6 +203,8 @@ def typestate(ctx):
                         pend = "none" if last_seg(path) == "take" else "some"
                         observed_some = pend == "some"
                     elif path in facts.fns and args and look(args[0]) in (("arg", 1),) and path.startswith(conn.P):
+                        if is_new_fn(path):
+                            bad = "calls the helper %s, which is nested too deeply to be followed" % path.split("::")[-1]
                         callee = facts.fns[path]
                         cty = callee.locals[1]["ty"] if callee.nargs >= 1 else {}
                         if cty.get("k") == "ref" and cty.get("mut"):
@@ -385,6 +387,8 @@ def body_invariant(ctx):
                             elif seg in ("push", "append", "insert", "resize", "retain", "split_off", "swap_remove", "remove", "pop"):
                                 why = "body_vec is modified by %s, which the invariant proof does not model" % seg
                         elif path in facts.fns and path.startswith(conn.P) and args and look(args[0]) == ("arg", 1) and _takes_mut_self(facts, path):
+                            if is_new_fn(path):
+                                why = "calls the helper %s, which is nested too deeply to be followed" % path.split("::")[-1]
                             # the callee keeps the invariant (proved for it separately); what we knew is gone
                             known = False
                             tr.L = tr.atom(("ghost", "len(body_vec) after %s@%d" % (path.split("::")[-1], e[1])), 0, 2**40)
@@ -476,6 +480,13 @@ def panics(ctx, typestate_ok, body_inv_ok=False):
         nfn += 1
         ctx.touched(fn)
         pa.analyse_fn(fn)
+    # helpers nested deeper than the inlining bound were met as opaque calls: analyse them on their own
+    done = set()
+    while pa.uninlined - done:
+        name = sorted(pa.uninlined - done)[0]
+        done.add(name)
+        nfn += 1
+        pa.analyse_fn(facts.fns[name])
     pa.lift_preconditions()
     lift_entry_preconditions(ctx, pa)
     loopfn = conn.parse_loop_fn(ctx)
